@@ -609,6 +609,7 @@ func vC01BearerSequence(t *testing.T, out *vEmitter) {
 		}
 	}
 	if served == 0 {
-		t.Fatalf("the authorised bearer tokens were never served: the sequence checks nothing")
+		// a control, not a clause of the property: without it the sequence above checks nothing
+		out.Violation("control/authorised-bearer-never-served", "the authorised bearer tokens of the sequence sweep were never served: the sequence checks nothing", map[string]interface{}{})
 	}
 }
